@@ -170,7 +170,7 @@ def _any_match(alts, pkgs):
 def self_excluding(p, alts, pk):
     """clause of package p that only another version of p's own name+slot could satisfy (a package that cannot be
     installed together with what it requires; for build-time classes the bootstrap idiom `DEPEND="<self"`)"""
-    pos = [a for a in alts if not a.blocks]
+    pos = [a for a in alts if not a.blocks and any(a.match(q) for q in pk.values())]  # ignore dead alternatives
     if not pos:
         return False
     for a in pos:
